@@ -49,7 +49,8 @@ LABELS = [("Running example", "name"), ("Message", "msg"), ("number of states", 
           ("Final strategies", "final_strategies"), ("Are equal", "are_equal"), ("Probabilities", "probabilities"),
           ("Probabilities min rew", "prob_min_rew"), ("Rewards", "rewards"), ("Rewards min reach", "rew_min_reach"),
           ("Total time", "total_time")]
-IDENT = st.text(alphabet="abcdeXYZ0123_", min_size=1, max_size=8).filter(lambda s: not s.endswith("_no_prune"))
+# letters include p and y (the characters of the ".py" extension) on purpose
+IDENT = st.text(alphabet="abpyXYP0123_", min_size=1, max_size=8).filter(lambda s: not s.endswith("_no_prune"))
 
 
 # ----------------------------------------------------------------------------- independent report parser
@@ -216,7 +217,7 @@ def one_game(draw):
         fl = [f for f in faults(base) if "inf" not in f[2] and "nan" not in f[2]]
         k = draw(st.integers(0, len(fl) - 1))
         return dict(kind="malformed", game=fl[k][4])
-    g = draw(games.stopping_games(min_inner=1, max_inner=6, max_sinks=2, rewards=(0, 1, 2, 5 / 3, 0.5, 1000, 5)))
+    g = draw(games.stopping_games(min_inner=1, max_inner=6, max_sinks=2, rewards=(0, 1, 2, 5 / 3, 0.5, 1000, 5), dup_names=True))
     return dict(kind="stopping", game=g)
 
 
@@ -231,7 +232,7 @@ def pipeline_cases(draw):
 
 FLOATS = st.one_of(st.floats(allow_nan=False, allow_infinity=False, width=64), st.sampled_from((float("inf"), 0.1, 1 / 3, 1e-300, -0.0)),
                    st.integers(-5, 10 ** 6))
-STRAT = st.one_of(st.none(), st.lists(st.one_of(st.none(), st.lists(st.sampled_from(("a", "Left", " ", "it's", 'q"')), max_size=3)),
+STRAT = st.one_of(st.none(), st.lists(st.one_of(st.none(), st.lists(st.sampled_from(("a", "a", "Left", " ", "it's", 'q"')), max_size=3)),
                                       max_size=6))
 VEC = st.one_of(st.none(), st.just(0), st.lists(FLOATS, max_size=40))
 MSG = st.one_of(st.sampled_from(("Game solved", "Game not solved",
@@ -241,14 +242,37 @@ MSG = st.one_of(st.sampled_from(("Game solved", "Game not solved",
 
 
 @st.composite
+def related_strategies(draw):
+    """(reach, final) pairs that are equal, or differ only slightly (a duplicate dropped, two actions
+    swapped, one action removed, None against []), besides unrelated ones."""
+    reach = draw(STRAT)
+    how = draw(st.sampled_from(("same", "dedupe", "swap", "drop", "independent", "independent")))
+    if how == "independent" or reach is None:
+        return reach, draw(STRAT)
+    final = [list(x) if isinstance(x, list) else x for x in reach]
+    lists = [i for i, x in enumerate(final) if isinstance(x, list) and x]
+    if how == "same" or not lists:
+        return reach, final
+    i = draw(st.sampled_from(lists))
+    if how == "dedupe":
+        final[i] = list(dict.fromkeys(final[i]))
+    elif how == "swap":
+        final[i] = final[i][::-1]
+    else:
+        final[i] = final[i][:-1]
+    return reach, final
+
+
+@st.composite
 def synthetic_cases(draw):
     k = draw(st.integers(1, 4))
     names = draw(st.lists(IDENT, min_size=k, max_size=k, unique=True))
     res = {}
     for nm in names:
+        reach, final = draw(related_strategies())
         res[nm] = dict(n_states=draw(st.integers(0, 5000)), n_transitions=draw(st.integers(0, 10 ** 5)),
                        n_iterations_reach=draw(st.integers(0, 10 ** 4)), n_iterations_rew=draw(st.integers(0, 10 ** 4)),
-                       reachability_strategies=draw(STRAT), final_strategies=draw(STRAT),
+                       reachability_strategies=reach, final_strategies=final,
                        total_time=draw(st.floats(0, 100)), msg=draw(MSG), rewards=draw(VEC), rew_min_reach=draw(VEC),
                        probabilities=draw(VEC), prob_min_rew=draw(VEC))
     path = draw(st.sampled_from(("inputs/{}.py", "{}.py", "inputs/sub/{}.py", "./inputs/{}.py"))).format(draw(IDENT))
